@@ -381,3 +381,88 @@ panicking_instances! {
         let _ = e.inner().downcast_ref_ok::<B>();
     };
 }
+
+// ---- C18.K3 — AtomicReloadId::update performs exactly ONE atomic access and it is a read-modify-write -------------------------
+// (the hypothesis of the linearization lemma C18.V2; semantic counterpart of the syntactic C18.S1). The atomic operations
+// of std are replaced by counting contract stubs; a load-compare-store rewrite satisfies the sequential contract C18.K2
+// but performs two non-RMW accesses.
+#[cfg(kani)]
+static mut ATOMIC_RMW: u8 = 0;
+#[cfg(kani)]
+static mut ATOMIC_PLAIN: u8 = 0;
+#[cfg(kani)]
+fn a_load(this: &AtomicUsize, _o: Ordering) -> usize {
+    unsafe {
+        ATOMIC_PLAIN += 1;
+        *this.as_ptr()
+    }
+}
+#[cfg(kani)]
+fn a_store(this: &AtomicUsize, v: usize, _o: Ordering) {
+    unsafe {
+        ATOMIC_PLAIN += 1;
+        *this.as_ptr() = v;
+    }
+}
+#[cfg(kani)]
+fn a_fetch_max(this: &AtomicUsize, v: usize, _o: Ordering) -> usize {
+    unsafe {
+        ATOMIC_RMW += 1;
+        let old = *this.as_ptr();
+        *this.as_ptr() = if v > old { v } else { old };
+        old
+    }
+}
+#[cfg(kani)]
+fn a_swap(this: &AtomicUsize, v: usize, _o: Ordering) -> usize {
+    unsafe {
+        ATOMIC_RMW += 1;
+        let old = *this.as_ptr();
+        *this.as_ptr() = v;
+        old
+    }
+}
+#[cfg(kani)]
+fn a_cas(this: &AtomicUsize, cur: usize, new: usize, _s: Ordering, _f: Ordering) -> Result<usize, usize> {
+    unsafe {
+        ATOMIC_RMW += 1;
+        let old = *this.as_ptr();
+        if old == cur {
+            *this.as_ptr() = new;
+            Ok(old)
+        } else {
+            Err(old)
+        }
+    }
+}
+#[cfg(kani)]
+#[kani::proof]
+#[kani::stub(std::sync::atomic::Atomic::<usize>::load, a_load)]
+#[kani::stub(std::sync::atomic::Atomic::<usize>::store, a_store)]
+#[kani::stub(std::sync::atomic::Atomic::<usize>::fetch_max, a_fetch_max)]
+#[kani::stub(std::sync::atomic::Atomic::<usize>::swap, a_swap)]
+#[kani::stub(std::sync::atomic::Atomic::<usize>::compare_exchange, a_cas)]
+#[kani::stub(std::sync::atomic::Atomic::<usize>::compare_exchange_weak, a_cas)]
+pub(crate) fn c18_k3_update_is_one_rmw() {
+    let (a, b): (usize, usize) = (nd(), nd());
+    let x = AtomicReloadId::with_value(ReloadId(a));
+    unsafe {
+        ATOMIC_RMW = 0;
+        ATOMIC_PLAIN = 0;
+    }
+    let r = x.update(ReloadId(b));
+    unsafe {
+        assert!(ATOMIC_RMW == 1 && ATOMIC_PLAIN == 0, "C18 AtomicReloadId::update is exactly one atomic read-modify-write (otherwise concurrent offers can be lost or reported twice)");
+    }
+    assert!(r == (b > a), "C18 update returns true iff the stored id grew");
+    let y = AtomicReloadId::with_value(ReloadId(a));
+    unsafe {
+        ATOMIC_RMW = 0;
+        ATOMIC_PLAIN = 0;
+    }
+    let old = y.fetch_max(ReloadId(b));
+    unsafe {
+        assert!(ATOMIC_RMW == 1 && ATOMIC_PLAIN == 0, "C18 fetch_max is one atomic read-modify-write");
+    }
+    assert!(old.0 == a);
+}
